@@ -302,10 +302,9 @@ Definition s_fident : str := bs "fident"%bs.
 
 (* the data-line branch (core.py:258-313) for one line.  Result: None = exception, Some a = one feature with dict a
    (after the pident/fident completion, which is all the sniffers look at). *)
-Definition data_line (f : tabfmt) (headers : list (str * N)) (fields : list str) : option (list (str * pv)) :=
-  if negb (Nat.eqb (length fields) (length headers)) then None       (* ValueError: number of fields *)
-  else
-    let attrs := map (fun hv => (fst (fst hv), convert (snd (fst hv)) (snd hv))) (combine headers fields) in
+Definition mk_attrs (headers : list (str * N)) (fields : list str) : list (str * pv) :=
+  map (fun hv => (fst (fst hv), convert (snd (fst hv)) (snd hv))) (combine headers fields).
+Definition data_line_attrs (f : tabfmt) (attrs : list (str * pv)) : option (list (str * pv)) :=
     match attrs_get (col f 0) attrs, attrs_get (col f 1) attrs, attrs_get (col f 2) attrs, attrs_get (col f 3) attrs with
     | Some start, Some stop, Some qstart, Some qstop =>
         let sstrand := attrs_get s_sstrand attrs in
@@ -352,6 +351,9 @@ Definition data_line (f : tabfmt) (headers : list (str * N)) (fields : list str)
         end
     | _, _, _, _ => None                                             (* KeyError *)
     end.
+Definition data_line (f : tabfmt) (headers : list (str * N)) (fields : list str) : option (list (str * pv)) :=
+  if negb (Nat.eqb (length fields) (length headers)) then None       (* ValueError: number of fields *)
+  else data_line_attrs f (mk_attrs headers fields).
 
 (* `0 <= ft.meta._fmt.pident <= 100` on the completed dict; None = exception (AttributeError / TypeError) *)
 Definition pident_in_range (a : list (str * pv)) : option bool :=
@@ -540,11 +542,17 @@ Definition detect_ext (w : what) (fname : str) : option str :=
 (* ------------------------------------------------------------------ _resolve_fname decision, main.py:139-213 *)
 Inductive fname_arg := FBytes | FNone | FHandle | FPath (s : str) | FStr (s : str).
 Inductive archive_arg := ANone | ATrue | AStr (s : str).
+(* detect_ext on any argument: os.path.splitext accepts str and PathLike; None, handles raise TypeError, bytes fail in
+   removeprefix('.') -- all caught: return None (main.py:89-93) *)
+Definition detect_ext_arg (w : what) (f : fname_arg) : option str :=
+  match f with FStr s | FPath s => detect_ext w s | _ => None end.
+(* main.py:171-185: the download is an archive (saved as <tmp><bname> and resolved again: glob or unpack), gzip data, or data *)
+Inductive url_sub := UArchiveGlob | UArchiveUnpack (fmt : option str) | UGz | UData.
 Inductive decision :=
 | DErrBytes                      (* ValueError *)
 | DPassHandle
 | DStdin
-| DUrl
+| DUrl (bname : str) (sub : url_sub)            (* after requests.get: what is done with the download named bname *)
 | DGlob (pattern : str)
 | DArchive (name : str) (fmt : option str)     (* shutil.unpack_archive(name, tmpdir, fmt) *)
 | DGz (name : str)
@@ -554,6 +562,33 @@ Definition has_magic (s : str) : bool :=
 Definition archive_requested (a : archive_arg) : bool :=
   match a with ANone => false | ATrue => true | AStr s => negb (str_eqb s (bs "gz"%bs)) end.
 Definition is_gz_arg (a : archive_arg) : bool := match a with AStr s => str_eqb s (bs "gz"%bs) | _ => false end.
+(* os.path.basename(urlparse(name).path) for scheme://netloc/path?query#fragment (urllib.parse.urlsplit: a valid scheme
+   starts with a letter and consists of letters, digits, + - .; otherwise the whole text is the path) *)
+Definition is_alpha (c : byte) : bool :=
+  let n := Byte.to_N c in ((65 <=? n) && (n <=? 90) || (97 <=? n) && (n <=? 122))%N.
+Definition is_scheme_char (c : byte) : bool :=
+  is_alpha c || is_digit c || byte_eqb c "+"%byte || byte_eqb c "-"%byte || byte_eqb c "."%byte.
+Fixpoint take_until (f : byte -> bool) (s : str) : str :=
+  match s with [] => [] | c :: r => if f c then [] else c :: take_until f r end.
+Fixpoint drop_until (f : byte -> bool) (s : str) : str :=
+  match s with [] => [] | c :: r => if f c then s else drop_until f r end.
+Definition is_qf (c : byte) : bool := byte_eqb c "?"%byte || byte_eqb c "#"%byte.
+Definition url_path (name : str) : str :=
+  let scheme := take_until (fun c => byte_eqb c ":"%byte) name in
+  let rest := drop_until (fun c => byte_eqb c ":"%byte) name in      (* starts with ":" if there is one *)
+  let valid := match scheme with c :: _ => is_alpha c && forallb is_scheme_char scheme | [] => false end in
+  match rest with
+  | _ :: after =>
+      if valid then
+        let after' := if startswith (bs "//"%bs) after
+                      then drop_until (fun c => byte_eqb c slash || is_qf c) (skipn 2 after)   (* netloc removed *)
+                      else after in
+        take_until is_qf after'
+      else take_until is_qf name
+  | [] => take_until is_qf name
+  end.
+Definition url_basename (name : str) : str := basename (url_path name).
+
 Definition resolve (datadir example : str) (f : fname_arg) (a : archive_arg) : decision :=
   match f with
   | FBytes => DErrBytes
@@ -563,12 +598,49 @@ Definition resolve (datadir example : str) (f : fname_arg) (a : archive_arg) : d
       let name := if startswith (bs "!data/"%bs) name0
                   then datadir ++ [slash] ++ removeprefix (bs "!data/"%bs) name0 else name0 in
       if str_eqb name (bs "-"%bs) then DStdin
-      else if contains (bs "://"%bs) (firstn 10 name) then DUrl
+      else if contains (bs "://"%bs) (firstn 10 name) then
+        let bname := url_basename name in
+        DUrl bname
+          (if archive_requested a || existsb (fun ext => endswith (dot :: ext) bname) ARCHIVE_EXTS
+           then (* new_reader(<tmp> + bname, archive=archive): the temporary prefix has no magic, so only bname decides *)
+                if has_magic bname then UArchiveGlob else UArchiveUnpack (match a with AStr s => Some s | _ => None end)
+           else if is_gz_arg a || endswith (bs ".gz"%bs) bname then UGz
+           else UData)
       else if has_magic name then DGlob name
       else if archive_requested a || existsb (fun ext => endswith (dot :: ext) name) ARCHIVE_EXTS
       then DArchive name (match a with AStr s => Some s | _ => None end)
       else if is_gz_arg a || endswith (bs ".gz"%bs) name then DGz name
       else DPlain name
+  end.
+
+(* ------------------------------------------------------------------ write side: _resolve_archive, _allow_to_str, format from
+   the extension (main.py:101-136, 386-391, 437-441).  fmt = the caller's fmt (lower-cased by write). *)
+Inductive wdecision :=
+| WErrArchiveHandle              (* ValueError: archive option with a file-like object (or no file name) *)
+| WErrNoFmt                      (* ValueError: neither fname nor fmt *)
+| WErrDetect                     (* IOError: format cannot be derived from the extension *)
+| WToStr (fmt : str)             (* written to a StringIO, text returned *)
+| WHandle (fmt : str)
+| WFile (name fmt : str)
+| WArchive (name archive fmt : str).   (* file written as tmpdir/basename(name), then shutil.make_archive(name, archive, tmpdir) *)
+Definition write_fmt (w : what) (f : fname_arg) (fmt : option str) : option str :=
+  match fmt with Some x => Some (lower x) | None => option_map lower (detect_ext_arg w f) end.
+Definition write_resolve (w : what) (first_archive : str) (f : fname_arg) (fmt : option str) (a : archive_arg) : wdecision :=
+  match a with
+  | ANone =>
+      match f with
+      | FNone => match fmt with None => WErrNoFmt | Some x => WToStr (lower x) end
+      | FStr s | FPath s => match write_fmt w f fmt with Some x => WFile s x | None => WErrDetect end
+      | _ => match write_fmt w f fmt with Some x => WHandle x | None => WErrDetect end
+      end
+  | _ =>
+      match f with
+      | FStr s | FPath s =>
+          let arch := match a with AStr x => x | _ => first_archive end in
+          (* the inner writer sees tmpdir/basename(name): same extension *)
+          match write_fmt w (FStr (basename s)) fmt with Some x => WArchive s arch x | None => WErrDetect end
+      | _ => WErrArchiveHandle
+      end
   end.
 
 (* ------------------------------------------------------------------ keyword plumbing
@@ -626,6 +698,78 @@ Definition shape_of (fmt : str) (o : opts) (c : str) : bool :=
   else if name_is fmt "csv"%bs then shape_xsv ","%byte c
   else true.
 
+(* ------------------------------------------------------------------ writer / renderer models (first lines as functions of
+   the abstract table) used by the soundness theorems *)
+Definition nl : byte := x0a.
+Fixpoint join (sep : byte) (fs : list str) : str :=            (* sep.join(fs) *)
+  match fs with
+  | [] => []
+  | [x] => x
+  | x :: r => x ++ sep :: join sep r
+  end.
+(* text made of lines, each terminated by a newline *)
+Definition text_of (ls : list str) : str := concat (map (fun l => l ++ [nl]) ls).
+(* pandas DataFrame.to_csv(index=False) for fields that need no quoting: header line + one line per feature (xsv.py:92-97) *)
+Definition render_xsv (sep : byte) (keys : list str) (rows : list (list str)) : str :=
+  text_of (map (join sep) (keys :: rows)).
+Definition is_alnum_ (c : byte) : bool := is_alpha c || is_digit c || byte_eqb c "_"%byte.
+(* column names as produced from keys.split(): identifiers *)
+Definition is_name (k : str) : bool :=
+  match k with
+  | c :: _ => (is_alpha c || byte_eqb c "_"%byte) && forallb is_alnum_ k
+  | [] => false
+  end.
+Definition field_ok (sep : byte) (f : str) : bool :=
+  forallb (fun c => negb (byte_eqb c sep) && negb (is_linebreak c) && negb (byte_eqb c tab)) f.
+Definition two_of_three (keys : list str) : bool :=
+  Nat.leb 2 ((if mem_str (bs "start"%bs) keys then 1 else 0) + (if mem_str (bs "stop"%bs) keys then 1 else 0)
+             + (if mem_str (bs "len"%bs) keys then 1 else 0)).
+(* domain of the TSV/CSV soundness theorems: identifier column names holding two of start/stop/len, the first one not
+   beginning with "locus" (a table whose first column is called locus... is a GenBank file to is_genbank), not exactly 12
+   columns (such a header is also tried as a hit-table row: rejected as well, but that is only tested), at least one row,
+   rectangular, fields free of separator / line breaks / tabs, header shorter than the 1000-character window *)
+Definition wf_xsv (sep : byte) (keys : list str) (rows : list (list str)) : bool :=
+  forallb is_name keys && two_of_three keys
+  && match keys with k0 :: _ => negb (startswith (bs "locus"%bs) (lower k0)) | [] => false end
+  && negb (Nat.eqb (length keys) 12)
+  && match rows with [] => false | _ => true end
+  && forallb (fun r => Nat.eqb (length r) (length keys) && forallb (field_ok sep) r) rows
+  && Nat.leb (length (join sep keys) + 2) 1000.
+
+(* hit tables (BLAST outfmt 6 / 10, MMseqs2 fmtmode 0): 12 columns per line; detection looks at the first line only *)
+Definition is_digits (s : str) : bool := match s with [] => false | _ => forallb is_digit s end.
+Definition hit_fields_ok (sep : byte) (fs : list str) : bool :=
+  match fs with
+  | [q; s; ident; alen; mism; gapo; qs; qe; ss; se; ev; bits] =>
+      forallb (fun f => forallb (fun c => negb (byte_eqb c sep) && negb (is_ws c) && negb (is_linebreak c)) f
+                        && match f with [] => false | _ => true end) fs
+      && negb (startswith (bs "#"%bs) q) && negb (startswith (bs "locus"%bs) (lower q))
+      && is_digits alen && is_digits mism && is_digits qs && is_digits qe && is_digits ss && is_digits se
+  | _ => false
+  end.
+(* the identity column as the sniffers read it *)
+Definition ident_fraction_ok (ident : str) : bool :=      (* 0 <= float(ident)*100 <= 100 *)
+  match py_float ident with Some f => float_in_range f 1 53 | None => false end.
+Definition ident_percent_ok (ident : str) : bool :=       (* 0 <= float(ident) <= 100 *)
+  match py_float ident with Some f => float_in_range f 100 47 | None => false end.
+Definition render_hits (sep : byte) (rows : list (list str)) : str := text_of (map (join sep) rows).
+Definition wf_hits (sep : byte) (rows : list (list str)) : bool :=
+  match rows with
+  | r0 :: _ => hit_fields_ok sep r0 && Nat.leb (length (join sep r0) + 1) 1000
+               && forallb (fun r => forallb (fun f => forallb (fun c => negb (is_linebreak c)) f) r) rows
+  | [] => false
+  end.
+Definition ident_of (rows : list (list str)) : str := nth 2 (hd [] rows) [].
+
+(* FASTA / Stockholm / GFF writers: the first line as a function of the object (fasta.py:84-95, stockholm.py:166-171,
+   gff.py:118-124) *)
+Definition render_fasta_rec (id header data : str) : str := bs ">"%bs ++ id ++ header ++ [nl] ++ data ++ [nl].
+Definition render_fasta (recs : list (str * str * str)) : str :=
+  concat (map (fun r => render_fasta_rec (fst (fst r)) (snd (fst r)) (snd r)) recs).
+Definition render_stockholm (body : list str) : str :=      (* '\n'.join(['# STOCKHOLM 1.0'] + body + ['//\n']) *)
+  join nl (bs "# STOCKHOLM 1.0"%bs :: body ++ [bs "//"%bs ++ [nl]]).
+Definition render_gff (header : str) (body : str) : str := bs "##gff-version 3"%bs ++ [nl] ++ header ++ body.
+
 (* ------------------------------------------------------------------ domain and harness entry point *)
 (* contents: printable ASCII, tab, newline (what every transport delivers unchanged to the sniffers) *)
 Definition ascii_ok (c : byte) : bool :=
@@ -645,7 +789,10 @@ Definition v_decision (d : decision) : val :=
   | DErrBytes => VE (bs "ValueError"%bs)
   | DPassHandle => VL [VS (bs "handle"%bs)]
   | DStdin => VL [VS (bs "stdin"%bs)]
-  | DUrl => VL [VS (bs "url"%bs)]
+  | DUrl b UArchiveGlob => VL [VS (bs "url"%bs); VS (bs "glob"%bs); VS b]
+  | DUrl b (UArchiveUnpack f) => VL [VS (bs "url"%bs); VS (bs "archive"%bs); VS b; VOpt VS f]
+  | DUrl _ UGz => VL [VS (bs "url"%bs); VS (bs "gz"%bs)]
+  | DUrl _ UData => VL [VS (bs "url"%bs); VS (bs "data"%bs)]
   | DGlob p => VL [VS (bs "glob"%bs); VS p]
   | DArchive n f => VL [VS (bs "archive"%bs); VS n; VOpt VS f]
   | DGz n => VL [VS (bs "gz"%bs); VS n]
@@ -663,9 +810,43 @@ Definition run_C03_detect (w : N) (sep : option byte) (outfmt : option str) (bin
   let o := {| o_sep := sep; o_outfmt := outfmt |} in
   let '(d, h) := detect_h (v_what w) o {| h_content := c; h_pos := pos; h_binary := binary |} in
   VL [VB (wf_C03 c pos); VL [v_dres d; VI (Z.of_nat (h_tell h)); VB (shape_of origin o (skipn pos c))]].
+(* the same with a third-party binary plugin registered in front of the chain (main.py:66-67: skipped for text handles) *)
+Definition bin_plugin : plugin := (bs "bintest"%bs, (true, (true, (false, [])))).
+Definition run_C03_detect_bin (w : N) (binary : bool) (pos : nat) (c : str) : val :=
+  let h0 := {| h_content := c; h_pos := pos; h_binary := binary |} in
+  let '(d, h) := detect_loop (v_what w) no_opts (h_tell h0) (bin_plugin :: chain (v_what w)) h0 in
+  VL [VB (wf_C03 c pos); VL [v_dres d; VI (Z.of_nat (h_tell h)); VB true]].
+(* renderer models against the real writers: [wf; text] *)
+Definition run_C03_render_xsv (sep : byte) (keys : list str) (rows : list (list str)) : val :=
+  VL [VB (wf_xsv sep keys rows); VS (render_xsv sep keys rows)].
+Definition run_C03_render_hits (sep : byte) (rows : list (list str)) : val :=
+  VL [VB (wf_hits sep rows); VS (render_hits sep rows)].
+Definition run_C03_render_fasta (recs : list (str * str * str)) : val :=
+  VL [VB (match recs with [] => false | _ => true end); VS (render_fasta recs)].
+Definition run_C03_render_stockholm (body : list str) : val := VL [VB true; VS (render_stockholm body)].
+Definition run_C03_render_gff (header body : str) : val := VL [VB true; VS (render_gff header body)].
 Definition run_C03_ext (w : N) (fname : str) : val :=
   VL [VB true; VOpt VS (detect_ext (v_what w) fname)].
-Definition run_C03_resolve (datadir example : str) (f : fname_arg) (a : archive_arg) : val :=
-  VL [VB true; v_decision (resolve datadir example f a)].
+Definition run_C03_ext_arg (w : N) (f : fname_arg) : val :=
+  VL [VB true; VOpt VS (detect_ext_arg (v_what w) f)].
+(* glob_empty: the harness lets glob.glob return no file -> IOError (main.py:188-189) *)
+Definition run_C03_resolve (datadir example : str) (f : fname_arg) (a : archive_arg) (glob_empty : bool) : val :=
+  VL [VB true; match resolve datadir example f a with
+               | DGlob p => if glob_empty then VE (bs "OSError"%bs) else v_decision (DGlob p)
+               | DUrl b UArchiveGlob => if glob_empty then VE (bs "OSError"%bs) else v_decision (DUrl b UArchiveGlob)
+               | d => v_decision d
+               end].
+Definition v_wdecision (d : wdecision) : val :=
+  match d with
+  | WErrArchiveHandle => VE (bs "ValueError"%bs)
+  | WErrNoFmt => VE (bs "ValueError"%bs)
+  | WErrDetect => VE (bs "OSError"%bs)
+  | WToStr f => VL [VS (bs "tostr"%bs); VS f]
+  | WHandle f => VL [VS (bs "handle"%bs); VS f]
+  | WFile n f => VL [VS (bs "file"%bs); VS n; VS f]
+  | WArchive n a f => VL [VS (bs "archive"%bs); VS n; VS a; VS f]
+  end.
+Definition run_C03_wresolve (w : N) (first_archive : str) (f : fname_arg) (fmt : option str) (a : archive_arg) : val :=
+  VL [VB true; v_wdecision (write_resolve (v_what w) first_archive f fmt a)].
 Definition run_C03_kw (w : N) (e : entry) (kw : kwargs) : val :=
   VL [VB true; v_kwargs (plugin_kw (v_what w) e kw)].
